@@ -34,6 +34,10 @@
 ; (assumed) hex.EncodeToString: uninterpreted
 (declare-fun hexs (Slice_Int) GoString)
 
+; @block declen
+; number of decimal digits of a canonical rendering (only its positivity is used)
+(declare-fun declen (Int) Int)
+(assert (forall ((n Int)) (! (>= (declen n) 1) :pattern ((declen n)))))
 ; @block errstr requires GoString
 ; (assumed) the text of an error value is a function of the value (errors are immutable)
 (declare-fun errstr (Int) GoString)
